@@ -164,7 +164,11 @@ def make_err_judge(name, term, fmt, counters):
             # a result that overflows is judged by R2.2; the error model does not apply to it
             finite = np.isfinite(rlo) & np.isfinite(rhi) & (thi < L) & (tlo > -L)
         bound_ok = (tot <= ERR_BOUND_U * edom.u) & ~rn & ~re
-        proved = np.where(d_all, bound_ok | ~finite, np.where(d_none, True, False))
+        # only a genuinely overflowing true range (R2.2's subject) is exempt: an infinite *enclosure* of a finite true range is a
+        # coarse abstraction, not a proof, and is refined
+        with np.errstate(all="ignore"):
+            true_overflow = (thi >= L) | (tlo <= -L)
+        proved = np.where(d_all, (bound_ok & finite) | true_overflow, np.where(d_none, True, False))
         refuted = np.zeros(shp, bool)
         err_ulp = np.zeros(shp)
         # single points: exact evaluation with the host's library functions against the long-double reference
